@@ -103,9 +103,11 @@ def step (d : DS) (ws : List String) : DS × String :=
       let (txt, n) := newRecs d s'
       ({ d with st := some s', stack := rest, nout := n }, s!"recs={txt}")
   | ["FORK"] =>
+    -- (the atfork child handler prepares thread data if there is none yet)
     let s' := forkChild d.state
     ({ d with st := some s', nout := 0 }, "forked recs=-")
   | ["FLUSH"] =>
+    if d.st.isNone then (d, "recs=-") else          -- the handler does nothing without thread data
     let s' := flushTop d.state
     let (txt, n) := newRecs d s'
     ({ d with st := some s', nout := n }, s!"recs={txt}")
